@@ -27,4 +27,15 @@ PROPS = {
         "trusted_base": BASE_TRUST,
         "assumptions": ["slices are at most isize::MAX bytes long (Rust guarantee)", "ColorFormat::bytes_per_pixel in 1..=16 (observed for all 12 formats each run)"],
     },
+    "C02": {
+        "gen": False,
+        "kernel_sample": 300,
+        "rule": "seeded generator over the property's boundary set: width/height/depth from {0..17} u {2^k-1,2^k,2^k+1 : k<32} u random, mip counts {1..40} u {254,255,256,2^32-1,...}, "
+                "36 PixelInfo shapes (fixed 1..16 B, BC/ASTC block sizes 4x4..12x12, 2x1, 8x1, 15x15x255 B, bi-planar 2x2/4x1/2x1 and degenerate), DX9/DX10, "
+                "{texture, 1D, array n in boundary set, cube, cube array, invalid cube, each of the 64 DX9 face sets, volume, random flag mixes}; "
+                "observables: error kind or total, kind, sizes, and (offset,len) of sampled surfaces via both iteration and indexed access; "
+                "an implementation-only tiling oracle walks the complete enumeration of small layouts; distinct = distinct case lines",
+        "trusted_base": BASE_TRUST,
+        "assumptions": ["header fields are u32 (NonZeroU32 mip count), as the Rust types guarantee"],
+    },
 }
